@@ -445,6 +445,9 @@ func (c *trCtx) nilSliceValue(e ast.Expr, ty types.Type) string {
 	if sel, ok := c.nilableSel(e); ok {
 		return c.nilableRaw(sel)
 	}
+	if r, ok := c.createNilSliceValue(e, ty); ok {
+		return r // a slice literal, an append (trans_units_create.go)
+	}
 	switch x := trUnparen(e).(type) {
 	case *ast.Ident:
 		o := c.info().Uses[x]
